@@ -369,7 +369,7 @@ def exact_line_ellipse(arc, l0, l1):
     return out
 
 
-def near_axis_case(rng):
+def near_axis_case(rng, rot=0.0):
     """an unrotated circular / elliptical arc (possibly far from the origin) and a Line that is
     exactly or ALMOST axis-parallel (tilt log-uniform 1e-9..1e-3, either sign, either axis) crossing
     the ellipse twice, once, nearly tangentially (two close crossings) or just not; the crossings
@@ -381,6 +381,8 @@ def near_axis_case(rng):
     if rng.random() < 0.4:                         # far from the origin / from y = 0
         d = ic.shift_desc(d, complex(rng.choice([0, 1, -1]) * rng.uniform(50, 2000) * scale,
                                      rng.choice([1, -1]) * rng.uniform(50, 2000) * scale))
+    if rot:                                        # a multiple of 180: the same ellipse, another parameterisation
+        d = (d[0], d[1], d[2], float(rot), d[4], d[5], d[6])
     arc = ic.mkseg(d)
     a, b = arc.radius.real, arc.radius.imag
     tilt = 0.0 if rng.random() < 0.2 else rng.choice([1, -1]) * 10 ** rng.uniform(-9, -3)
@@ -421,7 +423,7 @@ def near_axis_case(rng):
             expected.append((ta, s_))
     if len(expected) == 2 and abs(expected[0][0] - expected[1][0]) < 1e-3:
         return None
-    meta = {'family': 'near-axis-parallel-line-x-arc', 'tilt': tilt, 'axis': 'vertical' if vertical else 'horizontal',
+    meta = {'family': 'near-axis-parallel-line-x-arc' if not rot else 'half-turn-arc-x-line (rotation %g)' % rot, 'tilt': tilt, 'axis': 'vertical' if vertical else 'horizontal',
             'shape': shape, 'arc': sub, 'far': abs(arc.center) > 40 * scale}
     return d, ('L', l0, l1), expected, meta
 
@@ -1027,6 +1029,23 @@ def run(rep, tier, seed, replay=None):
         nD, eD = run_D(rep, K, tmp, rng, (150 if quick else 2000) * boost)
         # nearly axis-parallel lines x unrotated arcs (drawn last: the streams above are unchanged)
         nE, eE, sE = run_E(rep, K, tmp, rng, (80 if quick else 1500) * boost, secs)
+        # the same family with the arc rotated by a multiple of 180 degrees (same ellipse, the closed-form
+        # branch must not be taken as if unrotated); own rng: no other stream moves (seeded change C11_8)
+        rngH = common.mkrng(seed, 'C12-half-turn')
+        itemsH = []
+        for i in range(8 * (24 if quick else 400) * boost):
+            if len(itemsH) >= (24 if quick else 400) * boost:
+                break
+            try:
+                rH = near_axis_case(rngH, rot=rngH.choice([180.0, -180.0, 540.0, 360.0, -360.0]))
+            except Exception:
+                rH = None
+            if rH is not None:
+                itemsH.append(rH)
+        nH, eH, sH = run_E(rep, K, tmp, rngH, 0, secs, only=itemsH)
+        nE += nH; eE = eE + eH
+        for k_, v_ in sH.items():
+            sE['H' + k_[1:]] = sE.get('H' + k_[1:], 0) + v_
         # integer-grid Bezier-Bezier pairs, both operand orders (drawn last)
         nF, eF, sF = run_F(rep, K, tmp, rng, (45 if quick else 1500) * boost, secs)
         # exactly axis-parallel lines in the four directions x Quadratic/Cubic (drawn last)
@@ -1046,7 +1065,7 @@ def run(rep, tier, seed, replay=None):
                            'counting in Coq over Q (undecided cases are counted, not claimed); C: paths of 1-4 segments with '
                            'crossings strictly inside segments, poly-line totals; D: polyroots01 on supplied root lists; E: exactly / nearly '
                            'axis-parallel lines (tilt 1e-9..1e-3) x unrotated circular/elliptical arcs, crossings from the exact '
-                           'line-ellipse quadratic, three call forms. '
+                           'line-ellipse quadratic, three call forms; the same with the arc rotated by k x 180 degrees (k != 0). '
                            'non-trivial = a crossing exists by construction (A) or the exact count was decided (B)')
         rep.cov['input_distribution'] = stats
         rep.cov['samples'] = [{'seg1': repr(ic.mkseg(d1)), 'seg2': repr(ic.mkseg(d2)), 'constructed_crossings': cr,
